@@ -446,7 +446,9 @@ class Ref:
     def invalidate(self):
         self.sys = {}
 
-    def fd_dcov(self, ik, sid, orb, h=1e-6):
+    def fd_dcov(self, ik, sid, orb, h=1e-4):
+        # h = 1e-4: the difference quotient of a sum over up to 10^4 weighted samples is
+        # round-off dominated below that (error ~ 1e-12/h measured; 3e-6 relative at 1e-4)
         """central finite difference of (cov, base) along the orbital-derivative direction"""
         d = self.data[sid]
         kernel = self.gp.kernels[ik]
